@@ -1,10 +1,10 @@
 /-
 Model of the BUFFERING logic of the consumers of gmtls' record layer (gmtls/conn.go):
 
-  * `Conn.Read(b)`          (conn.go 1140-1205) with the block `c.input`, and
-  * `Conn.readHandshake()`  (conn.go 959-1033)  with the buffer `c.hand`,
+  * `Conn.Read(b)`          (conn.go 1142-1207) with the block `c.input`, and
+  * `Conn.readHandshake()`  (conn.go 959-1035)  with the buffer `c.hand`,
 
-both on top of `Conn.readRecord(want)` (conn.go 575-743).  Record PROTECTION is abstracted away (it is
+both on top of `Conn.readRecord(want)` (conn.go 575-743; line numbers as of /repo commit 1d83437).  Record PROTECTION is abstracted away (it is
 modelled in `Model.Record` and proved in `Props.C07Stream`): the input of this model is the list of records
 as `readRecord` sees them AFTER `halfConn.decrypt` — (type, plaintext) — or the way in which `readRecord`
 fails on them, followed by the end of the transport stream (= the end of the list).
@@ -132,7 +132,7 @@ def readRecord (r : Reader) : Reader :=
     err := match q.err with | some e => some e | none => r.err
     warnCount := q.warnCount }
 
-/-- the look-ahead test `len(ri.data) > 0 && recordType(ri.data[0]) == recordTypeAlert` (conn.go 1191-1193) -/
+/-- the look-ahead test `len(ri.data) > 0 && recordType(ri.data[0]) == recordTypeAlert` (conn.go 1193-1195) -/
 def alertWaiting : List Item → Bool
   | [] => false
   | it :: _ => !it.sep && it.kind.alertTyped
@@ -140,28 +140,28 @@ def alertWaiting : List Item → Bool
 /-- The body of `Conn.Read` after the `len(b) == 0` test: `fuel` iterations of the `emptyRecordCount` loop are
     left, `b = len(b) ≥ 1`. -/
 def readLoop (b : Nat) : Nat → Reader → Reader × (Bytes × Outcome)
-  | 0, r => (r, ([], some .noProgress))                               -- conn.go 1204
+  | 0, r => (r, ([], some .noProgress))                               -- conn.go 1206
   | k + 1, r =>
-    -- `for c.input == nil && c.in.err == nil { readRecord }` (1157-1169): one call sets one of the two
+    -- `for c.input == nil && c.in.err == nil { readRecord }` (1159-1171): one call sets one of the two
     let r1 := if r.input.isNone ∧ r.err.isNone then readRecord r else r
     match r1.err with
-    | some e => (r1, ([], some e))                                    -- 1158-1161 / 1170-1172
+    | some e => (r1, ([], some e))                                    -- 1160-1163 / 1172-1174
     | none =>
       match r1.input with
       | none => (r1, ([], some .nilInput))
       | some rest =>
-        let out := rest.take b                                        -- `n, err = c.input.Read(b)` (1174)
+        let out := rest.take b                                        -- `n, err = c.input.Read(b)` (1176)
         let rest2 := rest.drop b
-        let r2 : Reader := { r1 with input := if rest2.isEmpty then none else some rest2 }   -- 1175-1178
-        if out.length ≠ 0 ∧ r2.input.isNone ∧ alertWaiting r2.pending then             -- 1191-1193
-          let r3 := readRecord r2                                     -- 1194-1196
+        let r2 : Reader := { r1 with input := if rest2.isEmpty then none else some rest2 }   -- 1177-1180
+        if out.length ≠ 0 ∧ r2.input.isNone ∧ alertWaiting r2.pending then             -- 1193-1195
+          let r3 := readRecord r2                                     -- 1196-1198
           (r3, (out, r3.err))
-        else if out.length ≠ 0 then (r2, (out, none))                 -- 1199-1201
+        else if out.length ≠ 0 then (r2, (out, none))                 -- 1201-1203
         else readLoop b k r2
 
 /-- `Conn.Read(b)` with `len(b) = bufLen` on an established connection -/
 def read (r : Reader) (bufLen : Nat) : Reader × (Bytes × Outcome) :=
-  if bufLen = 0 then (r, ([], none))                                  -- conn.go 1144-1148
+  if bufLen = 0 then (r, ([], none))                                  -- conn.go 1146-1150
   else readLoop bufLen (maxConsecutiveEmptyRecords + 1) r
 
 /-- successive Reads with the given buffer sizes: the final state and what each Read returned -/
@@ -230,7 +230,7 @@ def fillGo (need : Nat) : Bytes → Nat → List HRec → HsBuf × Outcome
     | .trunc b :: rest => (⟨hand, .trunc b :: rest, some (truncErr b), wc⟩, some (truncErr b))
 
 /-- `for c.hand.Len() < need { if err := c.in.err; err != nil { return nil, err }; if err := c.readRecord(
-    recordTypeHandshake); err != nil { return nil, err } }` (conn.go 960-967 and 975-982): the stored error is
+    recordTypeHandshake); err != nil { return nil, err } }` (conn.go 960-967 and 977-984): the stored error is
     looked at only when `c.hand` is too short. -/
 def fill (need : Nat) (s : HsBuf) : HsBuf × Outcome :=
   if need ≤ s.hand.length then (s, none)
@@ -249,13 +249,13 @@ inductive HsResult
 deriving DecidableEq, Repr
 
 /-- `Conn.readHandshake()`.  `accept raw` stands for the type switch on `data[0]` and `m.unmarshal(data)`
-    (conn.go 984-1031; the message codecs are modelled in `Model.TLSMessages`). -/
+    (conn.go 986-1033; the message codecs are modelled in `Model.TLSMessages`). -/
 def readHandshake (accept : Bytes → Bool) (s : HsBuf) : HsBuf × HsResult :=
   match fill 4 s with
   | (s1, some e) => (s1, .error e)
   | (s1, none) =>
     let n := len24 s1.hand
-    if n > maxHandshake then ({ s1 with err := some .tooLong }, .error .tooLong)         -- 971-974
+    if n > maxHandshake then ({ s1 with err := some .tooLong }, .error .tooLong)         -- 971-976
     else
       match fill (4 + n) s1 with
       | (s2, some e) => (s2, .error e)
@@ -263,7 +263,7 @@ def readHandshake (accept : Bytes → Bool) (s : HsBuf) : HsBuf × HsResult :=
         let raw := s2.hand.take (4 + n)                                                 -- c.hand.Next(4+n)
         let s3 : HsBuf := { s2 with hand := s2.hand.drop (4 + n) }
         if accept raw then (s3, .msg raw)
-        else ({ s3 with err := some .unexpectedMessage }, .error .unexpectedMessage)    -- 1021 / 1030
+        else ({ s3 with err := some .unexpectedMessage }, .error .unexpectedMessage)    -- 1023 / 1032
 
 /-- repeated `readHandshake` until the first error: the messages and that error (`fuel` calls at most) -/
 def messagesFrom (accept : Bytes → Bool) : Nat → HsBuf → List Bytes × Outcome
